@@ -14,11 +14,18 @@ def on_miss_fn(key):
     return ('made', key)
 
 
+def prefetch_pairs(key):
+    """What a 'prefetching' on_miss stores into the cache itself before returning: the requested key
+    and its neighbour (a page loader doing cache.update(page))."""
+    return [(key, ('page', key)), ('n-' + str(key), ('page-neighbour', key))]
+
+
 class Model(object):
     def __init__(self, max_size, lru, has_on_miss):
         self.max_size = max_size
         self.lru = lru
-        self.has_on_miss = has_on_miss
+        self.has_on_miss = bool(has_on_miss)
+        self.prefetch = has_on_miss == 'prefetch'
 
     def initial(self, pairs=()):
         st = ((), 0, 0, 0, ())
@@ -55,7 +62,11 @@ class Model(object):
         if not self.has_on_miss:
             return (order, hit, miss, soft, log), KEYERR
         v = on_miss_fn(k)
-        st = self._set((order, hit, miss, soft, log + (k,)), k, v)
+        st = (order, hit, miss, soft, log + (k,))
+        if self.prefetch:
+            for pk, pv in prefetch_pairs(k):
+                st = self._set(st, pk, pv)
+        st = self._set(st, k, v)
         return st, ('ok', v)
 
     # -- operations: each returns a list of (new_state, result) alternatives
